@@ -20,7 +20,9 @@ _RENDER_BUILTINS = _REQUEST_BUILTINS + ('context',)
 RESERVED_ARGS = _RENDER_BUILTINS + ('next',)
 # reserved as well, but never injectable into the middleware chain:
 # _error exists for render_error functions only
-_UNUSABLE_ARGS = ('_error',)
+# ... and self cannot be handed to anything by name: clastic's own bound
+# methods take the injectables as keyword arguments
+_UNUSABLE_ARGS = ('_error', 'self')
 
 
 class InvalidEndpoint(ValueError):
